@@ -112,3 +112,29 @@ Example dot_roundtrip_example :
   dec BeginLine (enc [46;10; 46;46;120;13;10; 13;97;0;255;10; 98] ++ [81]) =
   Some ([46;10; 46;46;120;10; 13;97;0;255;10; 98;10], [81]).
 Proof. vm_compute. reflexivity. Qed.
+
+(** The only thing the SMTP reception changes is line ends: with every CR and LF byte removed,
+    the normalised body and the body the client had are the same byte string (nothing lost, added
+    or reordered), and every line of the normalised body ends in LF. *)
+Definition strip_eol (s : str) : str := filter (fun c => negb ((c =? CRb) || (c =? LFb))) s.
+
+Lemma strip_eol_app a b : strip_eol (a ++ b) = strip_eol a ++ strip_eol b.
+Proof. unfold strip_eol. apply filter_app. Qed.
+
+Lemma lines_acc_strip : forall b cur,
+  strip_eol (joined_lf (lines_acc cur b)) = strip_eol (rev cur) ++ strip_eol b.
+Proof.
+  induction b as [|c b IH]; intros cur; cbn [lines_acc].
+  - destruct cur as [|x cur]; [reflexivity|]. cbn [joined_lf]. rewrite !strip_eol_app. cbn. rewrite app_nil_r. reflexivity.
+  - destruct (c =? LFb) eqn:E.
+    + apply N.eqb_eq in E. subst c. cbn [joined_lf]. rewrite !strip_eol_app, IH. cbn [rev app].
+      change (strip_eol [LFb]) with (@nil N). change (strip_eol (LFb :: b)) with (strip_eol b). cbn [app].
+      f_equal. destruct cur as [|x cur']; [reflexivity|].
+      destruct (x =? CRb) eqn:Ex; [|reflexivity].
+      apply N.eqb_eq in Ex. subst x. cbn [rev]. rewrite strip_eol_app. cbn. rewrite app_nil_r. reflexivity.
+    + rewrite IH. cbn [rev]. rewrite strip_eol_app, <- app_assoc. f_equal.
+      change (c :: b) with ([c] ++ b). rewrite strip_eol_app. reflexivity.
+Qed.
+
+Theorem lf_norm_only_line_endings : forall body, strip_eol (lf_norm body) = strip_eol body.
+Proof. intros. unfold lf_norm, lines_of. rewrite lines_acc_strip. reflexivity. Qed.
